@@ -177,7 +177,7 @@ class Ctx:
             "violations": nviol,
         }
         # evidence is only ever written for /repo itself; scratch copies (FV_REPO) go elsewhere
-        evdir = os.path.join(VERIF, "evidence") if os.path.realpath(A.REPO) == "/repo" else os.path.join(VERIF, "out", "scratch-evidence")
+        evdir = os.path.join(VERIF, "evidence") if (os.path.realpath(A.REPO) == "/repo" and not os.environ.get("FV_NO_EVIDENCE")) else os.path.join(VERIF, "out", "scratch-evidence")
         os.makedirs(evdir, exist_ok=True)
         with open(os.path.join(evdir, "%s.json" % self.pid), "w") as f:
             json.dump(ev, f, indent=1)
